@@ -51,7 +51,8 @@ void HttpServer::serve(Socket client)
 			continue;
 
 		HttpRequest request(client);
-		if (client.error() || !request.method().ok() || !request.path().ok() || !request.protocol().ok())
+		// handle() < 0: the reader closed the connection on a malformed header line; what it read is not a complete request
+		if (client.error() || client.handle() < 0 || !request.method().ok() || !request.path().ok() || !request.protocol().ok())
 			break;
 
 		String hconn = request.header("Connection").toLowerCase();
